@@ -72,6 +72,15 @@ CHECKS = {
                  "indeterminate, successive), gradient and hessian are run against the Lean model and exact dictionary "
                  "arithmetic under 4 (quick) / all 16 (thorough) retain/sort settings.",
          "note": BASE_NOTE},
+ "C08": {"ref": "5/C08", "technique": "Lean 4 proof of the dispatch decision logic for all tables + decide over tables regenerated from /repo (registries, operator routing probe, spelling identity) + exhaustive negative-half correspondence",
+         "text": "resolve_ufunc_total / resolve_other_method / resolve_unmapped_* / resolve_function_total hold for every "
+                 "registry, ufunc and method: forward to a registered implementation or FeatureNotSupported, nothing else. "
+                 "Table obligations re-checked every run by decide +kernel: every unregistered public ufunc (x 6 methods) and "
+                 "overridable function resolves to FeatureNotSupported; numpoly.<name> is the registry object; every "
+                 "operator x operand-kind pair enters the implementation the property names (spy probe). The run calls "
+                 "every unregistered ufunc/method/function with a polynomial in each dispatch-relevant position "
+                 "(exhaustive) and every registry entry through all its spellings.",
+         "note": BASE_NOTE + " Which positions take part in numpy's protocol is decided with a probe array subclass."},
 }
 CLAIMED = set(CHECKS)
 NOT_APPLICABLE = {f"C{i:02d}": "check under construction in this session (will be claimed once built)"
